@@ -687,6 +687,10 @@ def run(ctx, report):
     mandatory_prefix_rule(ctx, R9, X)
 
     # -------------------------------------------------------------- D4 truncation / streams / progress
+    R10 = report.rule('C10.D10', 'the parse-error callbacks that read locals of their callers through the frame chain (frame.f_back...f_locals[name]) name locals those callers have: '
+                      'the documented ValueError is raised, not a KeyError from the error handler itself', floor=1)
+    frame_locals_rule(ctx, R10)
+
     R4 = report.rule('C10.D4', 'truncated input is reported as absent; reads are bounds-checked; loops make progress', floor=12)
     if not tries or 'IOError' not in caught:
         R4.violation('_dis:try', '_dis:no-IOError-handler', 'the decoder has no try whose IOError handler returns None', where(arch, dis))
@@ -811,6 +815,84 @@ def run(ctx, report):
     # -------------------------------------------------------------- D5 AT&T mnemonic reader is total
     R5 = report.rule('C10.D5', 'mnemo_from_att, evaluated on every mnemonic-like name x operand shape, returns or raises the documented ValueError', floor=3000)
     from_att_total(ctx, R5, arch)
+
+
+def frame_locals_rule(ctx, R):
+    """p_error of a grammar module walks up the call chain: p_error <- the yacc function that calls self.errorfunc <- LRParser.parse <- the function that calls
+    <parser>.parse <- its callers.  For every subscript frame.f_back^k.f_locals['name'] every function that can stand k frames above p_error must bind `name`
+    (parameter, assignment, loop target, import).  Comprehensions do not add a frame (the repository runs on python >= 3.12)."""
+    yacc = ctx.mod('yacc')
+    mods = [ctx.mod(n) for n in ('parse_ad', 'ia32_att', 'ia32_arch')]
+
+    def locals_of(fn):
+        out = set(a.arg for a in fn.args.args + fn.args.kwonlyargs)
+        if fn.args.vararg:
+            out.add(fn.args.vararg.arg)
+        if fn.args.kwarg:
+            out.add(fn.args.kwarg.arg)
+        for n in walk_no_nested(fn):
+            if isinstance(n, ast.Name) and isinstance(n.ctx, ast.Store):
+                out.add(n.id)
+            if isinstance(n, (ast.Import, ast.ImportFrom)):
+                out.update((a.asname or a.name).split('.')[0] for a in n.names)
+        return out
+
+    def functions(mod):
+        return [n for n in ast.walk(mod.tree) if isinstance(n, ast.FunctionDef)]
+
+    def callers_in(mod, pred):
+        out = []
+        for fn in functions(mod):
+            for n in walk_no_nested(fn):
+                if isinstance(n, ast.Call) and pred(n):
+                    out.append((mod, fn))
+                    break
+        return out
+    n_access = 0
+    for gm in mods[:2]:
+        pe = gm.funcs.get('p_error')
+        if pe is None:
+            continue
+        accesses = []
+        for n in ast.walk(pe):
+            if isinstance(n, ast.Subscript) and isinstance(n.value, ast.Attribute) and n.value.attr == 'f_locals' and isinstance(n.slice, ast.Constant) and isinstance(n.slice.value, str):
+                k, e = 0, n.value.value
+                while isinstance(e, ast.Attribute) and e.attr == 'f_back':
+                    k, e = k + 1, e.value
+                accesses.append((k, n.slice.value, n))
+        if not accesses:
+            continue
+        # names bound to a parser built from this module
+        parsers = set()
+        for st in gm.tree.body:
+            if isinstance(st, ast.Assign) and isinstance(st.value, ast.Call) and u(st.value.func).endswith('yacc') and isinstance(st.targets[0], ast.Name):
+                parsers.add(st.targets[0].id)
+        level = {}
+        level[1] = callers_in(yacc, lambda c: isinstance(c.func, ast.Attribute) and c.func.attr == 'errorfunc')
+        names1 = set(fn.name for _, fn in level[1])
+        level[2] = callers_in(yacc, lambda c: isinstance(c.func, ast.Attribute) and c.func.attr in names1)
+        # a yacc function that calls errorfunc and is itself the entry point (parse) may be called directly
+        entry = set(fn.name for _, fn in level[2]) | set(fn.name for _, fn in level[1] if fn.name == 'parse')
+        level[3] = callers_in(gm, lambda c: isinstance(c.func, ast.Attribute) and c.func.attr in entry and isinstance(c.func.value, ast.Name) and c.func.value.id in parsers)
+        names3 = set(fn.name for _, fn in level[3])
+        level[4] = []
+        for m_ in mods:
+            level[4] += callers_in(m_, lambda c: (isinstance(c.func, ast.Name) and c.func.id in names3) or (isinstance(c.func, ast.Attribute) and c.func.attr in names3))
+        if not (level[1] and level[2] and level[3]):
+            raise AnalysisError('%s.p_error reads caller frames, but the call chain yacc -> %s was not found' % (gm.name, sorted(parsers)))
+        for k, name, node in accesses:
+            n_access += 1
+            inst = '%s.p_error:f_back^%d[%r]' % (gm.name, k, name)
+            if k not in level or not level[k]:
+                raise AnalysisError('%s.p_error reads the frame %d levels up: no function found at that depth' % (gm.name, k))
+            missing = ['%s.%s' % (m_.name, fn.name) for m_, fn in level[k] if name not in locals_of(fn)]
+            if missing:
+                R.violation(inst, 'frame-local:%s:%s:%d' % (gm.name, name, k), 'p_error of %s reads the local %r of the function %d frames up; %s can stand there and has no such local: the error handler '
+                            'raises KeyError instead of the documented ValueError' % (gm.name, name, k, ', '.join(missing)), where(gm, node), witness="asm('mov eax, fs:[8]')")
+            else:
+                R.ok(inst, sample='%s: %s bind %r' % (inst, ', '.join(sorted(set(fn.name for _, fn in level[k]))), name))
+    if not n_access:
+        R.ok('no frame introspection', nontrivial=False)
 
 
 def printed_names(X, c):
@@ -1060,6 +1142,7 @@ def mandatory_prefix_rule(ctx, R, X):
 
 
 MUTANTS = [
+    ('p-error-local-renamed', 'miasmx/core/parse_ad.py', "f_back.f_back.f_back.f_back.f_locals['l']", "f_back.f_back.f_back.f_back.f_locals['line']", 'C10.D10'),
     ('mmx-mem-size-unrenderable', 'miasmx/arch/ia32_arch.py', "    '#p#movsxdq': x86_afs.f64, '#p#movzxdq': x86_afs.f64,", "    '#p#movsxdq': x86_afs.u64, '#p#movzxdq': x86_afs.u64,", 'C10.D2'),
     ('x87-size-keyerror', 'miasmx/arch/ia32_arch.py', "x86_afs.f32:x86_afs.f32, x86_afs.f64:x86_afs.f64}.get(size)", "x86_afs.f32:x86_afs.f32, x86_afs.f64:x86_afs.f64}[size]", 'C10.D3'),
     ('dis-failure-no-rewind', 'miasmx/arch/ia32_arch.py', "            if init_offset is not None:\n                # nothing was decoded: leave the stream where it was\n                op.offset = init_offset\n", "", 'C10.D4'),
